@@ -10,21 +10,36 @@ import (
 // ErrInjected is the error injected by failing sources and sinks.
 var ErrInjected = errors.New("verif: injected I/O failure")
 
+// wrapsEOF is an injected failure that also wraps io.ErrUnexpectedEOF (and hence is not
+// *equal* to it): errors.Is(e, ErrInjected) and errors.Is(e, io.ErrUnexpectedEOF) both hold.
+type wrapsEOF struct{ inner error }
+
+func (w wrapsEOF) Error() string   { return "verif: injected I/O failure wrapping " + w.inner.Error() }
+func (w wrapsEOF) Unwrap() []error { return []error{ErrInjected, w.inner} }
+
+// ErrInjectedWrapsEOF / ErrInjectedWrapsUnexpectedEOF are injected failures that wrap the
+// end-of-input sentinels: code that classifies errors with errors.Is instead of == would
+// take them for the end of the input.
+var (
+	ErrInjectedWrapsEOF           error = wrapsEOF{io.EOF}
+	ErrInjectedWrapsUnexpectedEOF error = wrapsEOF{io.ErrUnexpectedEOF}
+)
+
 // ErrSinkFull is returned by a bounded sink whose cap was reached (runaway output).
 var ErrSinkFull = errors.New("verif: bounded sink is full (unbounded output?)")
 
 // Sink is an io.Writer that records what it receives.
 type Sink struct {
-	Buf      []byte
-	Calls    int
-	FailAt   int  // 1-based index of the call that fails; 0 = never
-	Sticky   bool // every call from FailAt on fails
-	Partial  int  // bytes of the failing call that are still accepted
-	Cap      int  // > 0: fail with ErrSinkFull once more than Cap bytes were written
-	FailedAt []int
+	Buf               []byte
+	Calls             int
+	FailAt            int  // 1-based index of the call that fails; 0 = never
+	Sticky            bool // every call from FailAt on fails
+	Partial           int  // bytes of the failing call that are still accepted
+	Cap               int  // > 0: fail with ErrSinkFull once more than Cap bytes were written
+	FailedAt          []int
 	LenAtFirstFailure int
-	Boundaries []int // Buf length after each successful call
-	Hook     func()  // called at every Write (schedule perturbation)
+	Boundaries        []int  // Buf length after each successful call
+	Hook              func() // called at every Write (schedule perturbation)
 }
 
 func (s *Sink) Write(p []byte) (int, error) {
@@ -66,6 +81,7 @@ type Source struct {
 	Sticky   bool
 	Failed   int
 	Hook     func()
+	FailWith error // the error returned by the failing call (default ErrInjected)
 	zeroRun  int
 }
 
@@ -76,6 +92,9 @@ func (s *Source) Read(p []byte) (int, error) {
 	s.Calls++
 	if s.FailAt > 0 && (s.Calls == s.FailAt || (s.Sticky && s.Calls > s.FailAt)) {
 		s.Failed++
+		if s.FailWith != nil {
+			return 0, s.FailWith
+		}
 		return 0, ErrInjected
 	}
 	if len(p) == 0 {
